@@ -126,8 +126,55 @@ pub fn run(ctx: &mut Ctx) {
                 let Ok(lints) = res else { continue };
                 i += 1;
                 let expected: Vec<_> = lints.iter().map(|l| json!([l.span.start, l.span.end, l.message])).collect();
+                // every second case: the settings change while the (never saved) document stays open
+                let mut then = serde_json::Value::Null;
+                if i % 2 == 0 {
+                    let (dialect2, dname2) = *r.pick(&dialects);
+                    let mut linters2 = linters.clone();
+                    for _ in 0..r.range(1, 6) {
+                        let k = r.pick(&keys).clone();
+                        match r.below(3) {
+                            0 => {
+                                linters2.remove(&k);
+                            }
+                            1 => {
+                                linters2.insert(k, json!(true));
+                            }
+                            _ => {
+                                linters2.insert(k, json!(false));
+                            }
+                        }
+                    }
+                    // switch off one of the rules that fire here, now and then
+                    if let (Some(l), true) = (lints.first(), r.chance(1, 2)) {
+                        let msg = l.message.clone();
+                        let mut probe = LintGroup::new_curated(merged.clone(), dialect);
+                        probe.set_all_rules_to(Some(false));
+                        let doc = Document::new(&text, &parser, &merged);
+                        for k in &keys {
+                            probe.config.set_rule_enabled(k, true);
+                            let hit = probe.lint(&doc).iter().any(|x| x.message == msg);
+                            probe.config.set_rule_enabled(k, false);
+                            if hit {
+                                linters2.insert(k.clone(), json!(false));
+                                break;
+                            }
+                        }
+                    }
+                    let cfg2: harper_core::linting::LintGroupConfig = serde_json::from_value(serde_json::Value::Object(linters2.clone())).expect("config");
+                    let res2 = guarded(|| {
+                        let doc = Document::new(&text, &parser, &merged);
+                        let mut lg = LintGroup::new_curated(merged.clone(), dialect2).with_lint_config(cfg2.clone());
+                        lg.config.fill_with_curated();
+                        lg.lint(&doc)
+                    });
+                    if let Ok(l2) = res2 {
+                        let expected2: Vec<_> = l2.iter().map(|l| json!([l.span.start, l.span.end, l.message])).collect();
+                        then = json!({"settings": {"dialect": dname2, "linters": linters2}, "expected": expected2});
+                    }
+                }
                 writeln!(f, "{}", json!({"fam": "cfg", "fe": fe.name(), "lang": lang_id(fe, &mut r), "text": text, "expected": expected,
-                    "settings": {"dialect": dname, "linters": linters}})).unwrap();
+                    "settings": {"dialect": dname, "linters": linters}, "then": then})).unwrap();
             }
         }
         "dictwords" => {
